@@ -152,7 +152,7 @@ func main() {
 			hs = append(hs, genHistory(r, long))
 		}
 	}
-	if *replay == "" && (*prop == "" || *prop == "C18" || *prop == "C04" || *prop == "C01") {
+	if *replay == "" && (*prop == "" || *prop == "C18" || *prop == "C04" || *prop == "C01" || *prop == "C05") {
 		// (C01: the write-fault histories in which every Write returned nil all the same)
 		// Storage faults are outside C18's quantifier; this leg exercises the error paths of a rotation
 		// on single-stream MPEG-TS / fMP4 muxers, where the unchanged code recovers from a failed file
